@@ -131,6 +131,25 @@ fn craft_tree(src: &Path, craft: u32) {
                 "<array><string>nested</string><string>nest/glyphs.n</string></array></array>\n</plist>",
             );
         }
+        11 => {
+            // a layer directory given as an ABSOLUTE path (inside the sandbox): Layer.path keeps the last component
+            let abs = src.parent().unwrap().join("abs.glyphs");
+            std::fs::create_dir_all(&abs).unwrap();
+            std::fs::write(
+                abs.join("contents.plist"),
+                "<?xml version=\"1.0\" encoding=\"UTF-8\"?>\n<plist version=\"1.0\"><dict></dict></plist>\n",
+            )
+            .unwrap();
+            edit(
+                &src.join("layercontents.plist"),
+                "</array>\n</plist>",
+                &format!("<array><string>absolute</string><string>{}</string></array></array>\n</plist>", abs.display()),
+            );
+        }
+        12 => {
+            // the default layer spelled with a trailing separator, another one with a `./` prefix
+            edit(&src.join("layercontents.plist"), "<string>glyphs</string>", "<string>glyphs/</string>");
+        }
         10 => {
             // a layer directory one level up, really present beside the source: the load succeeds and
             // Layer.path must keep the last component only (a save elsewhere must stay inside its target)
@@ -198,7 +217,14 @@ pub fn observe_ext(toks: &[&str], scratch: &Path, fresh: bool) -> String {
         write_source_tree(&src, rich, &d, &i);
         craft_tree(&src, num(toks, "craft"));
         tr.root = Some("o/m/src.ufo".into());
-        match guarded(|| Font::load(&src)) {
+        let part = num(toks, "part");
+        let loaded = guarded(|| match part {
+            // fonts that come from a partial load (C17) are saved like any other
+            1 => Font::load_requested_data(&src, norad::DataRequest::none().lib(true).default_layer(true).data(true)),
+            2 => Font::load_requested_data(&src, norad::DataRequest::all().data(false).groups(false).filter_layers(|n, _| n != "background")),
+            _ => Font::load(&src),
+        });
+        match loaded {
             Ok(Ok(f)) => f,
             _ => return "load-failed".into(),
         }
@@ -226,6 +252,8 @@ pub fn observe_ext(toks: &[&str], scratch: &Path, fresh: bool) -> String {
         let _ = std::fs::remove_file(src.parent().unwrap().join("esc.glif"));
     }
     make_invalid(&mut font, &mut tr, kinds);
+    fontinfo_variant(&mut font, num(toks, "fi"));
+    groups_variant(&mut font, &mut tr, num(toks, "gr"));
     craft_font(&mut font, &mut tr, num(toks, "craft"));
     let edits = field(toks, "e");
     if !edits.is_empty() {
@@ -240,7 +268,13 @@ pub fn observe_ext(toks: &[&str], scratch: &Path, fresh: bool) -> String {
     let trel = target.strip_prefix(&sb).unwrap().to_string_lossy().to_string();
     let desc = describe(&font, &tr);
     let pre_tok = tree_token(&sb);
-    let r = save_result(&font, &target);
+    // the same target under another spelling: trailing separator, a `..` detour
+    let spelled: PathBuf = match num(toks, "tsp") {
+        1 => PathBuf::from(format!("{}/", target.display())),
+        2 => target.parent().unwrap().join("..").join("m").join(target.file_name().unwrap()),
+        _ => target.clone(),
+    };
+    let r = save_result_opt(&font, &spelled, num(toks, "wo"));
     let post_tok = tree_token(&sb);
     let mut extra = String::new();
     if fresh {
@@ -248,7 +282,7 @@ pub fn observe_ext(toks: &[&str], scratch: &Path, fresh: bool) -> String {
         let fsb = scratch.join("fresh/o/m");
         rm_rf(&scratch.join("fresh"));
         std::fs::create_dir_all(&fsb).unwrap();
-        let r2 = save_result(&font, &fsb.join("f.ufo"));
+        let r2 = save_result_opt(&font, &fsb.join("f.ufo"), num(toks, "wo"));
         let same = r == "ok" && r2 == "ok" && snapshot(&target) == snapshot(&fsb.join("f.ufo"));
         extra = format!(" FRESH={}:{}", r2, if same { "same" } else { "diff" });
         rm_rf(&scratch.join("fresh"));
@@ -332,6 +366,45 @@ pub fn gen(tier: &str, seed: u64, out: &mut dyn Write) {
                     let stores = rng.below(3) as u32;
                     emit(out, &scratch, &format!("rich={} load={} stores={} sabot=0 kinds=0 pre={} e=", rich, load, stores, pre));
                 }
+            }
+        }
+    }
+    // boundary values of other font-info and groups rules, other entry points, other spellings of the target,
+    // fonts from partial loads (phase 3 review of blind spots)
+    for fi in 1..=12 {
+        for &pre in &[0u32, 2, 5] {
+            for load in 0..2 {
+                emit(out, &scratch, &format!("rich={} load={} stores=1 sabot=0 kinds=0 pre={} fi={} e=", rng.below(32), load, pre, fi));
+            }
+        }
+    }
+    for gr in 1..=5 {
+        for &pre in &[0u32, 2, 5] {
+            emit(out, &scratch, &format!("rich={} load={} stores=1 sabot=0 kinds=0 pre={} gr={} e=", rng.below(32), pre % 2, pre, gr));
+        }
+    }
+    for wo in 1..=2 {
+        for &k in &[0u32, 1, 2, 4, 8, 32, 128] {
+            for &pre in &[0u32, 1, 2, 4, 5] {
+                emit(out, &scratch, &format!("rich={} load=1 stores=2 sabot=0 kinds={} pre={} wo={} e=", rng.below(32), k, pre, wo));
+            }
+        }
+        for &pre in &[0u32, 2] {
+            emit(out, &scratch, &format!("rich=31 load=1 stores=1 sabot=1 kinds=0 pre={} wo={} e=", pre, wo));
+        }
+    }
+    for tsp in 1..=2 {
+        for &k in &[0u32, 4, 8] {
+            for &pre in &[0u32, 1, 2, 4, 5] {
+                emit(out, &scratch, &format!("rich={} load=1 stores=1 sabot=0 kinds={} pre={} tsp={} e=", rng.below(32), k, pre, tsp));
+            }
+        }
+        emit(out, &scratch, &format!("rich=7 load=1 stores=2 sabot=2 kinds=0 pre=5 tsp={} e=", tsp));
+    }
+    for part in 1..=2 {
+        for &k in &[0u32, 4] {
+            for &pre in &[2u32, 5] {
+                emit(out, &scratch, &format!("rich=31 load=1 stores=2 sabot=0 kinds={} pre={} part={} e=", k, pre, part));
             }
         }
     }
